@@ -33,7 +33,10 @@ if str(REPO) not in sys.path:
 
 # ----------------------------------------------------------------------------- hex I/O
 def fhex(x: float) -> str:
-    return struct.pack(">d", float(x)).hex()
+    x = float(x)
+    if x != x:
+        return "7ff8000000000000"  # canonical NaN (sign/payload carry no meaning)
+    return struct.pack(">d", x).hex()
 
 
 def hexf(s: str) -> float:
